@@ -110,6 +110,39 @@ proof fn lemma_rel_children_prefix(a1: Seq<Expr>, a2: Seq<Expr>, e: int, ch: Seq
     }
 }
 
+/// specialisation only turns references into commands: whatever the result refers to, the
+/// original referred to
+proof fn lemma_spec_rel_refs(a: Seq<Expr>, e: int, r: int, ucmd: Map<Ustr, Ustr>, builtin: Map<Ustr, BuiltinSpec>, fallback: Map<Ustr, (Ustr, HumanSpan)>, shell: Shell, n: Ustr)
+    requires spec_rel(a, e, r, ucmd, builtin, fallback, shell), has_ref(a, r, n)
+    ensures has_ref(a, e, n)
+    decreases e
+{
+    match a[e] {
+        Expr::Sequence { children, .. } => { match a[r] { Expr::Sequence { children: c2, .. } => {
+            assert(rel_children(a, e, children@, c2@, ucmd, builtin, fallback, shell));
+            let k = choose|k: int| 0 <= k < c2@.len() && 0 <= (#[trigger] c2@[k]).0 < r && has_ref(a, c2@[k].0 as int, n);
+            assert(0 <= children@[k].0 < e);
+            lemma_spec_rel_refs(a, children@[k].0 as int, c2@[k].0 as int, ucmd, builtin, fallback, shell, n);
+        } _ => {} } }
+        Expr::Alternative { children, .. } => { match a[r] { Expr::Alternative { children: c2, .. } => {
+            assert(rel_children(a, e, children@, c2@, ucmd, builtin, fallback, shell));
+            let k = choose|k: int| 0 <= k < c2@.len() && 0 <= (#[trigger] c2@[k]).0 < r && has_ref(a, c2@[k].0 as int, n);
+            assert(0 <= children@[k].0 < e);
+            lemma_spec_rel_refs(a, children@[k].0 as int, c2@[k].0 as int, ucmd, builtin, fallback, shell, n);
+        } _ => {} } }
+        Expr::Fallback { children, .. } => { match a[r] { Expr::Fallback { children: c2, .. } => {
+            assert(rel_children(a, e, children@, c2@, ucmd, builtin, fallback, shell));
+            let k = choose|k: int| 0 <= k < c2@.len() && 0 <= (#[trigger] c2@[k]).0 < r && has_ref(a, c2@[k].0 as int, n);
+            assert(0 <= children@[k].0 < e);
+            lemma_spec_rel_refs(a, children@[k].0 as int, c2@[k].0 as int, ucmd, builtin, fallback, shell, n);
+        } _ => {} } }
+        Expr::Optional { child, .. } => { match a[r] { Expr::Optional { child: c2, .. } => { lemma_spec_rel_refs(a, child.0 as int, c2.0 as int, ucmd, builtin, fallback, shell, n); } _ => {} } }
+        Expr::Many1 { child, .. } => { match a[r] { Expr::Many1 { child: c2, .. } => { lemma_spec_rel_refs(a, child.0 as int, c2.0 as int, ucmd, builtin, fallback, shell, n); } _ => {} } }
+        Expr::Subword { root_id, .. } => { match a[r] { Expr::Subword { root_id: c2, .. } => { lemma_spec_rel_refs(a, root_id.0 as int, c2.0 as int, ucmd, builtin, fallback, shell, n); } _ => {} } }
+        _ => {}
+    }
+}
+
 /// pushing any node keeps the relation between older nodes
 proof fn lemma_spec_rel_push(a: Seq<Expr>, e: int, r: int, ucmd: Map<Ustr, Ustr>, builtin: Map<Ustr, BuiltinSpec>, fallback: Map<Ustr, (Ustr, HumanSpan)>, shell: Shell)
     requires spec_rel(a, e, r, ucmd, builtin, fallback, shell)
